@@ -389,7 +389,9 @@ func (e *Exec) derefCheck(p Ptr) Ptr {
 
 func (e *Exec) load(p Ptr) Value {
 	p = e.derefCheck(p)
-	e.noteRead(p.Obj)
+	if e.tracing {
+		e.traceAccess("R", p.Obj, p.Path)
+	}
 	path := p.Path
 	var v Value
 	if p.Obj.Arr {
@@ -437,6 +439,9 @@ func updatePath(v Value, path []int, nv Value) Value {
 func (e *Exec) store(p Ptr, nv Value) {
 	p = e.derefCheck(p)
 	e.noteWrite(p.Obj)
+	if e.tracing {
+		e.traceAccess("W", p.Obj, p.Path)
+	}
 	e.effectOn(p.Obj.ID)
 	if e.sub != nil && p.Obj.ID <= e.sub.objBase {
 		panic(subAbort{"store to outer object"})
@@ -499,7 +504,7 @@ func (e *Exec) cloneObj(o *Obj) *Obj {
 		return o
 	}
 	e.objCtr++
-	c := &Obj{Arr: o.Arr, ID: e.objCtr, Typ: o.Typ, Tag: o.Tag, RO: true}
+	c := &Obj{Arr: o.Arr, ID: e.objCtr, Typ: o.Typ, Tag: o.Tag, RO: true, Origin: o}
 	e.cloneMemo[o] = c
 	if o.Arr {
 		c.Elems = make([]Value, len(o.Elems))
@@ -539,7 +544,7 @@ func (e *Exec) cloneVal(v Value) Value {
 			return MapRef{M: c}
 		}
 		e.objCtr++
-		c := &Map{ID: e.objCtr, KT: x.M.KT, VT: x.M.VT, idx: map[string]int{}}
+		c := &Map{ID: e.objCtr, KT: x.M.KT, VT: x.M.VT, idx: map[string]int{}, Origin: x.M}
 		e.cloneMapMemo[x.M] = c
 		for _, en := range x.M.Entries {
 			if en.Deleted {
@@ -787,7 +792,7 @@ func (e *Exec) runFrame(fr *frame) {
 	}()
 	for {
 		blk := fr.block
-		if ForkStats != nil {
+		if ForkStats != nil || e.tracing {
 			e.curFn = fr.fn.String()
 		}
 	instrs:
@@ -956,6 +961,9 @@ func (e *Exec) visit(fr *frame, instr ssa.Instruction) int {
 	case *ssa.Call:
 		fv, args := e.prepareCall(fr, &in.Call)
 		fr.set(in, e.callValue(fr, fv, args, in))
+		if e.tracing {
+			e.curFn = fr.fn.String()
+		}
 	case *ssa.ChangeInterface:
 		fr.set(in, fr.get(in.X))
 	case *ssa.ChangeType:
